@@ -2,6 +2,7 @@
 queries built from a first-pass dump of each topology.  Every random choice
 derives from the rng handed in."""
 import os
+import random
 import re
 
 from gen import topo_sources as S
@@ -62,6 +63,11 @@ def syn_pus(desc):
 
 
 def gen_topologies(rng, tier):
+    base = rng.getrandbits(64)
+
+    def stream(name):
+        return random.Random("%d/%s" % (base, name))
+
     """list of (name, kind, config-and-load lines ending with 'load' (+ restrict))"""
     quick = tier == "quick"
     out = []
@@ -77,8 +83,10 @@ def gen_topologies(rng, tier):
     out.append(("synthetic-memcache:[numa(memorysidecachesize=1GB)] pack:2 [numa] pu:2", "synthetic",
                 ["filter 15 0", "src synthetic [numa(memorysidecachesize=1GB)] pack:2 [numa] pu:2", "load"]))
     nsyn = 40 if quick else 250
+    rng = stream("synthetic")
     descs = fixed + [S.gen_synthetic(rng, max_pus=32 if quick else 64) for _ in range(nsyn)]
     for i, desc in enumerate(descs):
+        rng = stream("restrict/%d/%s" % (i, desc))
         out.append(("synthetic:" + desc, "synthetic", ["src synthetic " + desc, "load"]))
         # restricted variants: asymmetric trees, CPU-less NUMA nodes / packages when REMOVE_CPULESS is not given
         if i < len(fixed) or rng.random() < 0.7:
@@ -95,9 +103,31 @@ def gen_topologies(rng, tier):
                     fl = rng.choice([0, 0, 0, 1, 2, 4, 6])
                     out.append(("synthetic-restricted:%s|%s|%d" % (desc, fmt_set(keep), fl), "restricted",
                                 ["src synthetic " + desc, "load", "restrict %s %d" % (fmt_set(keep), fl)]))
+    # CPU-less packages / NUMA nodes in the MIDDLE of a level (restrict without REMOVE_CPULESS)
+    for desc, keep in [("pack:3 [numa] pu:2", 0b110011), ("pack:4 [numa] core:1 pu:2", 0b11000011), ("pack:3 [numa] [numa] pu:1", 0b101),
+                       ("[numa] pack:4 [numa] pu:1", 0b1001), ("group:3 [numa] pack:2 pu:1", 0b110011)]:
+        for fl in (0, 4):
+            out.append(("synthetic-restricted:%s|%s|%d" % (desc, fmt_set(keep), fl), "restricted",
+                        ["src synthetic " + desc, "load", "restrict %s %d" % (fmt_set(keep), fl)]))
+    # PUs numbered round-robin over the cores / packages, some PUs disallowed: cpuset != complete_cpuset, and
+    # the order of siblings (by complete_cpuset) differs from the order of the first bits of their cpusets
+    inter = ["pack:1 core:4 pu:2(indexes=0,4,1,5,2,6,3,7)", "pack:2 core:2 pu:2(indexes=0,4,2,6,1,5,3,7)", "core:3 pu:2(indexes=0,3,1,4,2,5)",
+             "pack:2 pu:4(indexes=0,2,4,6,1,3,5,7)", "pack:2 [numa] core:2 pu:2(indexes=0,4,1,5,2,6,3,7)", "pack:2 l2:2 pu:2(indexes=0,4,2,6,1,5,3,7)"]
+    for desc in inter:
+        rng = stream("disallowed/" + desc)
+        tot = syn_pus(desc)
+        full = (1 << tot) - 1
+        allowed = [full & ~1, full & ~((1 << rng.randint(1, 3)) - 1)]
+        for _ in range(1 if quick else 6):
+            a = rand_subset(rng, full, 0.7)
+            allowed.append(a if a else full & ~1)
+        for a in dict.fromkeys(allowed):
+            out.append(("synthetic-disallowed:%s|%s" % (desc, fmt_set(a)), "disallowed",
+                        ["flags 1", "src synthetic " + desc, "load", "disallow_reload " + fmt_set(a)]))
     xmls = S.xml_corpus()
     for x in xmls:
-        base = os.path.basename(x)
+        bname = os.path.basename(x)
+        rng = stream("xml/" + bname)
         if quick and os.path.getsize(x) > 120000 and rng.random() < 0.6:
             continue
         # I/O (KEEP_ALL = 0 or KEEP_IMPORTANT = 3), Misc (type 19) and MemCache (type 15) objects are filtered out by default
@@ -105,11 +135,11 @@ def gen_topologies(rng, tier):
         if not quick:
             cfgs.append(["filter all 2"])
         for cfg in cfgs:
-            out.append(("xml:%s|%s" % (base, ";".join(cfg)), "xml", ["env HWLOC_LIBXML_IMPORT 1"] + cfg + ["src xml " + x, "load"]))
+            out.append(("xml:%s|%s" % (bname, ";".join(cfg)), "xml", ["env HWLOC_LIBXML_IMPORT 1"] + cfg + ["src xml " + x, "load"]))
         if rng.random() < (0.5 if quick else 1.0):
             keep = rng.getrandbits(48) | 1
             fl = rng.choice([0, 0, 1, 4])
-            out.append(("xml-restricted:%s|%s|%d" % (base, fmt_set(keep), fl), "restricted",
+            out.append(("xml-restricted:%s|%s|%d" % (bname, fmt_set(keep), fl), "restricted",
                         ["env HWLOC_LIBXML_IMPORT 1", "filter io 0", "filter 19 0", "filter 15 0", "src xml " + x, "load", "restrict %s %d" % (fmt_set(keep), fl)]))
     return out
 
@@ -127,7 +157,16 @@ def rand_subset(rng, bits, p=0.5):
 
 
 def gen_queries(rng, t, tier, budget):
-    """queries for one dumped topology; `budget` bounds the sampled ones"""
+    """queries for one dumped topology; `budget` bounds the sampled ones.  `rng` is private to the
+    topology; every query family draws from its own stream, so that extending one family does not
+    change what the others generate."""
+    qbase = rng.getrandbits(64)
+    R = {"rng": None}
+
+    def family(name):
+        R["rng"] = random.Random("%d/%s" % (qbase, name))
+        return R["rng"]
+    rng = family("sets")
     q = []
     nobj = len(t.objs)
     small = nobj <= 40
@@ -151,16 +190,41 @@ def gen_queries(rng, t, tier, budget):
     nids = [o["id"] for o in t.normal]
 
     def some(l, k):
-        return l if len(l) <= k else rng.sample(l, k)
+        return l if len(l) <= k else R["rng"].sample(l, k)
 
+    rng = family("covering")
     for s in sets:
         q.append("covering " + s)
+    # every single PU and every object's cpuset, whatever the size of the topology (the descent depends on the
+    # sibling order, which follows complete_cpuset: offline / disallowed PUs make it differ from the cpuset order)
+    pubits = [i for i in range(top) if (root >> i) & 1]
+    extra = [1 << b for b in (pubits if len(pubits) <= 64 else some(pubits, 64))]
+    extra += csets if len(csets) <= 80 else some(csets, 80)
+    for _ in range(10):
+        if len(pubits) >= 2:
+            a, b = rng.sample(pubits, 2)
+            extra.append((1 << a) | (1 << b))
+    must = []
+    for x in dict.fromkeys(extra):
+        if fmt_set(x) not in sets:
+            q.append("covering " + fmt_set(x))
+            q.append("child_covering %d %s" % (rng.choice(nids), fmt_set(x)))
+        must.append("largest %s %d" % (fmt_set(x), nobj + 1))
+        must.append("first_largest " + fmt_set(x))
+    must = some(must, 300)
+    for o in some(t.normal, 12):
+        if o["cs"]:
+            for c in [x for x in t.normal if x["par"] == str(o["id"]) and x["cs"]][:6]:
+                q.append("child_covering %d %s" % (o["id"], fmt_set(c["cs"] & -c["cs"] if rng.random() < 0.5 else c["cs"])))
+    rng = family("first_largest")
     for s in some(sets, 10):
         q.append("first_largest " + s)
         q.append("child_covering %d %s" % (rng.choice(nids), s))
+    rng = family("largest")
     for s in sets:
         for mx in some([0, 1, 2, 3, nobj, nobj + 5, -1], 7 if small else 3):
             q.append("largest %s %d" % (s, mx))
+    rng = family("iterators")
     for s in some(sets, 14 if small else 6):
         for d in some(depths, len(depths) if small else 5):
             q.append("inside %d %s" % (d, s))
@@ -170,6 +234,20 @@ def gen_queries(rng, t, tier, budget):
         q.append("from_nodeset " + s)
         for wh in some([0, 1, 2, 5], 2):
             q.append("singlify_per_core %s %d" % (s, wh))
+    rng = family("nb_inside")
+    rootbits = [i for i in range(top) if (root >> i) & 1]
+    isets = [root, 0]
+    for k in range(1, len(rootbits)):
+        if small or rng.random() < 0.2:
+            isets.append(sum(1 << b for b in rootbits[:k]))       # prefixes
+            isets.append(sum(1 << b for b in rootbits[k:]))       # suffixes
+    for b in (rootbits if small else some(rootbits, 6)):
+        isets.append(root & ~(1 << b))                            # all but one
+    isets = [fmt_set(x) for x in dict.fromkeys(isets)] + ["1:" + "f" * 16, "1:" + "%016x" % (((1 << 64) - 1) & ~1)]
+    for s_ in some(isets, 40 if small else 8):
+        for dd in some(list(range(t.depth)) + [-3], t.depth + 1 if small else 3):
+            q.append("nb_inside %d %s" % (dd, s_))
+    rng = family("pairs")
     # ---- pairs
     if small:
         pairs = [(a, b) for a in nids for b in nids]
@@ -181,16 +259,40 @@ def gen_queries(rng, t, tier, budget):
     for _ in range(6 if spec else 0):
         pairs.append((rng.choice(spec), rng.choice(ids)))
         pairs.append((rng.choice(ids), rng.choice(spec)))
+    # non-normal objects whose deepest common ancestor is itself non-normal: (special parent, child) in both
+    # orders, siblings below a special parent, grandparents; and every memory object as source of closest_objs
+    byid = {o["id"]: o for o in t.objs}
+    kids_of = {}
+    for o in t.objs:
+        if o["par"].isdigit():
+            kids_of.setdefault(int(o["par"]), []).append(o["id"])
+    structured = []
+    for o in t.objs:
+        if o["dp"] < 0 and o["par"].isdigit() and byid[int(o["par"])]["dp"] < 0:
+            pp = int(o["par"])
+            structured += [(pp, o["id"]), (o["id"], pp)]
+            sib = [x for x in kids_of.get(pp, []) if x != o["id"]]
+            if sib:
+                structured += [(o["id"], sib[0]), (sib[-1], o["id"])]
+            g = byid[pp]["par"]
+            if g.isdigit():
+                structured += [(int(g), o["id"]), (o["id"], int(g))]
+    structured = some(list(dict.fromkeys(structured)), 80 if tier == "quick" else 600)
+    must += ["ancestor %d %d" % ab for ab in structured]
+    must += ["closest %d %d" % (o["id"], nobj) for o in some([x for x in t.objs if x["dp"] in (-3, -8)], 12)]
     for a, b in pairs:
         q.append("ancestor %d %d" % (a, b))
     for a, b in some(pairs, 30):
         q.append("in_subtree %d %d" % (a, b))
+    rng = family("closest")
     for o in some(ids, 40 if small else 12):
         for mx in some([0, 1, 3, nobj], 4 if small else 2):
             q.append("closest %d %d" % (o, mx))
+    rng = family("same_locality")
     for o in some(ids, 25 if small else 10):
         for ty in some(list(range(20)), 20 if small else 5):
             q.append("same_locality %d %d" % (o, ty))
+    rng = family("same_locality_io")
     # I/O and Misc sources; subtype / name-prefix filters taken from the objects themselves; flags
     ioobjs = [o for o in t.objs if o["dp"] in IO_DEPTHS]
     for o in some(ioobjs, 30 if tier == "quick" else 200):
@@ -218,6 +320,7 @@ def gen_queries(rng, t, tier, budget):
     q.append("memory_parents_depth")
     for ty in range(-1, 22):
         q.append("type_kind %d" % ty)
+    rng = family("type_depth_attr")
     for gd in (0, 1, 2, 3, 7, 4294967295):
         for mode in (0, 1, 2):
             q.append("type_depth_attr 13 %d %d" % (gd, mode))
@@ -233,6 +336,7 @@ def gen_queries(rng, t, tier, budget):
     for ty in NORMAL_TYPES:
         q.append("type_or_below %d" % ty)
         q.append("type_or_above %d" % ty)
+    rng = family("distrib")
     # ---- distrib
     npu = len(t.pus)
     rootsets = [[0]]
@@ -265,13 +369,26 @@ def gen_queries(rng, t, tier, budget):
     q.append("distrib 0 0 %d 0" % INT_MAX)
     q.append("distrib 0 2 %d 2" % INT_MAX)
     q.append("distrib 0 2 %d 3" % INT_MAX)
+    rng = family("budget")
     if len(q) > budget:
-        # keep every kind represented: sample per kind proportionally
+        # the cheap single-answer kinds are kept whole (up to a cap): their inputs are enumerated on purpose
+        # (every PU, every object cpuset, prefixes/suffixes); the bulky kinds share the rest proportionally
+        keepall = {"covering", "child_covering", "first_largest", "nb_inside", "type_depth", "depth_type", "type_depth_attr",
+                   "sscanf_depth", "type_kind", "next_child", "memory_parents_depth", "type_or_below", "type_or_above"}
         bykind = {}
         for x in q:
             bykind.setdefault(x.split(" ", 1)[0], []).append(x)
         keep = []
+        rest = 0
         for k, l in bykind.items():
-            keep += some(l, max(6, budget * len(l) // len(q)))
+            if k in keepall:
+                keep += some(l, 400)
+            else:
+                rest += len(l)
+        room = max(budget - len(keep), budget // 2)
+        for k, l in bykind.items():
+            if k not in keepall:
+                keep += some(l, max(6, room * len(l) // max(rest, 1)))
         q = keep
+    q += [x for x in must if x not in set(q)]
     return q
